@@ -174,4 +174,17 @@ theorem hashList_spec :
     (∀ l r, hashList (.pair l r) = treeHash (.pair l r) :: (hashList l ++ hashList r)) :=
   ⟨fun _ => rfl, fun _ _ => rfl⟩
 
+/-! ### the hypotheses are satisfiable -/
+
+/-- a DAG with a shared pair (id 2), a shared heap atom (id 1) and a shared inline atom (id 3) -/
+def exampleDag : NTree :=
+  .pair 5 (.pair 2 (.u32 3 1) (.buffer 1 [0])) (.pair 2 (.u32 3 1) (.buffer 1 [0]))
+
+example : Consistent exampleDag := by unfold Consistent; decide
+example : exampleDag.Valid := by simp [exampleDag, NTree.Valid]
+example : objectCacheTreeHash exampleDag = .ok (some (treeHash exampleDag.erase)) :=
+  objectCache_eq_treeHash _ (by simp [exampleDag, NTree.Valid]) (by unfold Consistent; decide)
+/-- equal ids with different contents are rejected by `Consistent` -/
+example : ¬ Consistent (.pair 2 (.buffer 1 [0]) (.buffer 1 [1])) := by unfold Consistent; decide
+
 end Clvm.Props.C22
